@@ -46,8 +46,8 @@ def gen_molecule(rng, quick):
     adj = {}
 
     def new_atom(z, coord):
-        q = rng.weighted([(0, 16), (1, 2), (-1, 2)]) if z in CENTRES else 0
-        sp = rng.weighted([(0, 20), (1, 2), (2, 1)]) if z in CENTRES else 0
+        q = rng.weighted([(0, 32), (1, 4), (-1, 4), (2, 1), (-2, 1)]) if z in CENTRES else 0
+        sp = rng.weighted([(0, 20), (1, 2), (-1, 2), (2, 1), (-2, 1)]) if z in CENTRES else 0
         cc = z in METALS and rng.chance(1, 2)
         atoms.append({"z": z, "q": q, "spin": sp, "cc": cc, "hint": None, "xyz": coord,
                       "pc": round(rng.uniform() - 0.5, 3)})
@@ -115,26 +115,34 @@ def gen_molecule(rng, quick):
 
 
 
-def grid_molecules(rng):
-    """every centre element x formal charge x spin x multiset of up to three neighbour bonds (single, double, triple,
-    aromatic): the whole domain of the count formula, in a non-degenerate (tetrahedral-like, jittered) geometry"""
+COMMON_CENTRES = (5, 6, 7, 8, 14, 15, 16)
+GRID_CHARGES = (-2, -1, 0, 1, 2)
+GRID_SPINS = (-2, -1, 0, 1, 2)        # formal_spin is a signed integer (2·S, alpha/beta); the formula uses |spin|
+
+
+def grid_molecules(rng, elements_13_16, full):
+    """the domain of the count formula on one centre: every element of groups 13-16 x formal charge -2..+2 x formal spin
+    -2..+2 x neighbour bonds.  For B C N O Si P S (and, when `full`, for every element): every multiset of up to three
+    bonds from (single, double, triple, aromatic) and four single bonds; for the other elements otherwise: 0..4 single bonds.
+    Geometry: tetrahedral-like, jittered (non-degenerate)."""
     import itertools
     dirs = [(0.0, 0.0, 1.0), (0.9428, 0.0, -0.3333), (-0.4714, 0.8165, -0.3333), (-0.4714, -0.8165, -0.3333)]
-    for z in (5, 6, 7, 8, 14, 15, 16):
-        for q in (-1, 0, 1):
-            for sp in (0, 1, 2):
-                for nn in range(0, 4):
-                    for bts in itertools.combinations_with_replacement((1, 2, 3, 20), nn):
-                        atoms = [{"z": z, "q": q, "spin": sp, "cc": False, "hint": None,
-                                  "xyz": (0.25, -0.5, 0.125), "pc": 0.0}]
-                        bonds = []
-                        for t, bt in enumerate(bts):
-                            d = dirs[t]
-                            jit = [0.1 * (rng.uniform() - 0.5) for _ in range(3)]
-                            atoms.append({"z": 9, "q": 0, "spin": 0, "cc": False, "hint": None,
-                                          "xyz": tuple(atoms[0]["xyz"][c] + 1.5 * d[c] + jit[c] for c in range(3)), "pc": 0.0})
-                            bonds.append([0, t + 1, bt, "1/1"] if t % 2 == 0 else [t + 1, 0, bt, "1/1"])
-                        yield {"atoms": atoms, "bonds": bonds, "cls": "Structure", "sel": None}
+    rich = [bts for nn in range(0, 4) for bts in itertools.combinations_with_replacement((1, 2, 3, 20), nn)] + [(1, 1, 1, 1)]
+    plain = [(1,) * nn for nn in range(0, 5)]
+    for z in elements_13_16:
+        for q in GRID_CHARGES:
+            for sp in GRID_SPINS:
+                for bts in (rich if (full or z in COMMON_CENTRES) else plain):
+                    atoms = [{"z": z, "q": q, "spin": sp, "cc": False, "hint": None,
+                              "xyz": (0.25, -0.5, 0.125), "pc": 0.0}]
+                    bonds = []
+                    for t, bt in enumerate(bts):
+                        d = dirs[t]
+                        jit = [0.1 * (rng.uniform() - 0.5) for _ in range(3)]
+                        atoms.append({"z": 9, "q": 0, "spin": 0, "cc": False, "hint": None,
+                                      "xyz": tuple(atoms[0]["xyz"][c] + 1.5 * d[c] + jit[c] for c in range(3)), "pc": 0.0})
+                        bonds.append([0, t + 1, bt, "1/1"] if t % 2 == 0 else [t + 1, 0, bt, "1/1"])
+                    yield {"atoms": atoms, "bonds": bonds, "cls": "Structure", "sel": None}
 
 
 def choose_subset(rng, mol, group_of):
@@ -646,12 +654,19 @@ def run(ctx):
             account(mol, added, "corpus")
 
     # ---- the whole domain of the count formula on one centre ----
-    for mol in grid_molecules(rng):
+    elements_13_16 = [e.value for e in Element if 13 <= group_of(e.value) <= 16]
+    ngrid = 0
+    for mol in grid_molecules(rng, elements_13_16, full=not ctx.quick()):
+        ngrid += 1
+        if mol["atoms"][0]["spin"] < 0:
+            ctx.count("grid:negative-spin")
         ctx.check_deadline()
         mol = mol_to_json(mol)
         added = run_case(ctx, mol, "grid", requests, **kw)
         account(mol, added, "grid")
-    ctx.extra_cov["count_formula_grid"] = "7 elements x 3 charges x 3 spins x 35 neighbour-bond multisets (exhaustive)"
+    ctx.extra_cov["count_formula_grid"] = (f"{ngrid} centres: all {len(elements_13_16)} elements of groups 13-16 x charges -2..+2 x spins -2..+2 x "
+                                           + ("36 neighbour-bond multisets" if not ctx.quick() else
+                                              "36 neighbour-bond multisets (B C N O Si P S) / 0..4 single bonds (other elements)"))
 
     # ---- random organic-like molecules ----
     nrand = 300 if ctx.quick() else 40000
